@@ -493,25 +493,29 @@ func paramObjs(info *types.Info, fd *ast.FuncDecl) []types.Object {
 // function returns that variable on the path after a successful iteration.
 func checkIterateStopAndReport(r *Reporter, p *Prog, pkg string, fd *ast.FuncDecl, key string) {
 	info := p.Pkg(pkg).TypesInfo
-	var lit *ast.FuncLit
+	// the consumer handed to the store iteration: a function literal, or a method value / named
+	// function whose declaration is in this package
+	var litBody *ast.BlockStmt
+	var litPos token.Pos
 	ast.Inspect(fd.Body, func(n ast.Node) bool {
 		if c, ok := n.(*ast.CallExpr); ok {
 			if se, ok := ast.Unparen(c.Fun).(*ast.SelectorExpr); ok && fieldSel(info, se.X, "kv") {
 				for _, a := range c.Args {
-					if l, ok := a.(*ast.FuncLit); ok {
-						lit = l
+					if b, pos := callableBody(p, info, a); b != nil {
+						litBody, litPos = b, pos
 					}
 				}
 			}
 		}
 		return true
 	})
-	if lit == nil {
-		r.Fail("iterate/stop-and-report", key, p.posStr(fd.Pos()), "no consumer literal passed to the store iteration")
+	if litBody == nil {
+		r.Fail("iterate/stop-and-report", key, p.posStr(fd.Pos()), "no consumer (function literal or method value) passed to the store iteration")
 		return
 	}
+	lit := struct{ Body *ast.BlockStmt }{litBody}
 	lf := newFuncCFG(p, info, lit.Body, key+"$consumer")
-	outerVars := map[types.Object]bool{}
+	outerVars := map[types.Object]bool{} // variables of the enclosing function, or fields, the error is recorded in
 	nDecode := 0
 	bad := ""
 	for _, c := range lf.Calls(func(c *ast.CallExpr) bool {
@@ -532,11 +536,18 @@ func checkIterateStopAndReport(r *Reporter, p *Prog, pkg string, fd *ast.FuncDec
 				if !ok || len(as.Lhs) != 1 {
 					return false
 				}
-				o := objOfIdent(info, as.Lhs[0])
-				if o == nil || (o.Pos() >= lit.Pos() && o.Pos() <= lit.End()) {
-					return false
+				var o types.Object
+				if se, isSel := ast.Unparen(as.Lhs[0]).(*ast.SelectorExpr); isSel {
+					if sel := info.Selections[se]; sel != nil && sel.Kind() == types.FieldVal {
+						o = sel.Obj() // a field of the iteration state
+						if v, isVar := o.(*types.Var); isVar {
+							o = v.Origin()
+						}
+					}
+				} else if o = objOfIdent(info, as.Lhs[0]); o != nil && o.Pos() >= lit.Body.Pos() && o.Pos() <= lit.Body.End() {
+					o = nil // a local of the consumer does not outlive it
 				}
-				if types.Identical(o.Type(), errorType) {
+				if o != nil && types.Identical(o.Type(), errorType) {
 					outerVars[o] = true
 					return true
 				}
@@ -566,7 +577,18 @@ func checkIterateStopAndReport(r *Reporter, p *Prog, pkg string, fd *ast.FuncDec
 		okRet := false
 		for _, pt := range f.Find(func(n ast.Node) bool { _, ok := n.(*ast.ReturnStmt); return ok }) {
 			rs := f.nodeAt(pt).(*ast.ReturnStmt)
-			if len(rs.Results) == 1 && outerVars[objOfIdent(info, rs.Results[0])] {
+			returned := func(e ast.Expr) types.Object {
+				if se, isSel := ast.Unparen(e).(*ast.SelectorExpr); isSel {
+					if sel := info.Selections[se]; sel != nil && sel.Kind() == types.FieldVal {
+						if v, isVar := sel.Obj().(*types.Var); isVar {
+							return v.Origin()
+						}
+					}
+					return nil
+				}
+				return objOfIdent(info, e)
+			}
+			if len(rs.Results) == 1 && returned(rs.Results[0]) != nil && outerVars[returned(rs.Results[0])] {
 				okRet = true
 			} else if len(rs.Results) == 1 && isNil(info, rs.Results[0]) {
 				bad = fmt.Sprintf("%s: returns nil instead of the error recorded by the consumer", p.posStr(rs.Pos()))
@@ -577,8 +599,8 @@ func checkIterateStopAndReport(r *Reporter, p *Prog, pkg string, fd *ast.FuncDec
 		}
 	}
 	if bad == "" {
-		r.Pass("iterate/stop-and-report", key, p.posStr(lit.Pos()), fmt.Sprintf("%d decode call(s): error recorded, iteration stopped, error returned", nDecode))
+		r.Pass("iterate/stop-and-report", key, p.posStr(litPos), fmt.Sprintf("%d decode call(s): error recorded, iteration stopped, error returned", nDecode))
 	} else {
-		r.Fail("iterate/stop-and-report", key, p.posStr(lit.Pos()), bad)
+		r.Fail("iterate/stop-and-report", key, p.posStr(litPos), bad)
 	}
 }
